@@ -246,6 +246,11 @@ def has_fatal(chunks):
     return any(('x' in o) if isinstance(o, dict) else (o[0] == 'x') for c in chunks for o in c)
 
 
+def strict_ne(a, b):
+    """inequality that tells True from 1 and False from 0 (Python's == does not): compared as canonical JSON text"""
+    return json.dumps(a, sort_keys=True) != json.dumps(b, sort_keys=True)
+
+
 def compare(case, r, m):
     if 'harness_exc' in r:
         return 'real side raised in harness: ' + r['harness_exc']
@@ -256,9 +261,9 @@ def compare(case, r, m):
             return None
         if r.get('raised'):
             return 'exception escaped through the source on the real code: %s' % r['raised']
-    if r['chunks'] != m['chunks']:
+    if strict_ne(r['chunks'], m['chunks']):
         for i, (a, b) in enumerate(zip(r['chunks'], m['chunks'])):
-            if a != b:
+            if strict_ne(a, b):
                 return 'chunk %d: real=%s model=%s' % (i, json.dumps(a)[:300], json.dumps(b)[:300])
         return 'chunk count: real=%d model=%d' % (len(r['chunks']), len(m['chunks']))
     if case['kind'] in ('mux', 'raw') and m['chunks'] != m['l2']:
